@@ -271,7 +271,7 @@
         open spec fn ser_ok(len: usize) -> bool { len <= 65535 }
         /// APDU: one byte below 255, otherwise 0xff followed by the length little-endian
         open spec fn spec_ser(len: usize) -> Seq<u8> {
-            if len < 255 { seq![len as u8] } else { seq![0xffu8] + le_seq2(len as nat) }
+            adpu_ser(len as nat)
         }
         open spec fn spec_deser(b: Seq<u8>) -> Option<(usize, int)> {
             if b.len() == 0 { None }
@@ -279,7 +279,7 @@
             else { Some((b[0] as usize, 1)) }
         }
         open spec fn spec_pad(len: usize) -> Seq<u8> { Seq::<u8>::empty() }
-        //@ fn src:zvt_builder/src/length.rs | impl Length for Adpu | serialize | props=C16,C03
+        //@ fn src:zvt_builder/src/length.rs | impl Length for Adpu | serialize | props=C16,C03,C04
         //@ end
         //@ fn src:zvt_builder/src/length.rs | impl Length for Adpu | deserialize | props=C02,C16
         //@ end
@@ -288,6 +288,7 @@
             let pre = Self::spec_ser(len);
             let b = pre + p + s;
             if len >= 255 {
+                assert(adpu_ser(len as nat) =~= seq![0xffu8] + le_seq2(len as nat));
                 assert(b.subrange(1, 3) =~= le_seq2(len as nat));
                 lemma_le2_inv(len as nat);
             }
@@ -308,6 +309,6 @@
         let x = Adpu::spec_ser(a); let y = Adpu::spec_ser(b);
         assert(x.len() == y.len());
         assert(x[0] == y[0]);
-        if a >= 255 { assert(x[1] == y[1]); assert(x[2] == y[2]); }
+        if a >= 255 { assert(x[1] == y[1]); assert(x[2] == y[2]); assert(a == (a % 256) + 256 * ((a / 256) % 256)); assert(b == (b % 256) + 256 * ((b / 256) % 256)); }
     }
     //@ untag
